@@ -35,6 +35,36 @@ theorem ts_plus_interval_instant (d s f ns : Int) (r : Value) (h : TsPlain s f)
     exact ⟨d1, s1, f1, e1.symm, hp, htot⟩
   · cases e1
 
+/-- the year of the calendar day on which the instant `t` (nanoseconds, `tsTotal`) falls -/
+def yearOfInstant (t : Int) : Int := (CivilE.civilOfDays (t / nsPerSec / 86400)).1
+
+/-- **When `timestamp + interval` has a value, and which** (the other direction of `ts_plus_interval_instant`, third review M10):
+for an ordinary timestamp the sum is the timestamp of the instant `T = instant + interval` exactly when the calendar day of `T`
+lies in a year chrono's dates cover (−262143 … 262142); otherwise it is the error `undefinedOperation` — never another value,
+never NULL, never a different error. A model in which `+` always failed would not satisfy this. -/
+theorem ts_plus_interval_defined_iff (d s f ns : Int) (h : TsPlain s f) :
+    arith .add (.timestamp d s f) (.interval ns) =
+      (if -262143 ≤ yearOfInstant (tsTotal d s f + ns) && yearOfInstant (tsTotal d s f + ns) ≤ 262142
+       then .ok (tsOfTotal (tsTotal d s f + ns)) else .error .undefinedOperation) := by
+  show tsAdd d s f ns = _
+  unfold tsAdd
+  rw [tsShift_plain d s f ns h.2.2.2]
+  rfl
+
+/-- … and `timestamp − interval` likewise, with the instant `T = instant − interval` -/
+theorem ts_minus_interval_defined_iff (d s f ns : Int) (h : TsPlain s f) :
+    arith .sub (.timestamp d s f) (.interval ns) =
+      (if -262143 ≤ yearOfInstant (tsTotal d s f - ns) && yearOfInstant (tsTotal d s f - ns) ≤ 262142
+       then .ok (tsOfTotal (tsTotal d s f - ns)) else .error .undefinedOperation) := by
+  have := ts_plus_interval_defined_iff d s f (-ns) h
+  rw [show tsTotal d s f + -ns = tsTotal d s f - ns by omega] at this
+  exact this
+
+/-- non-vacuity of both branches: one hour after 2024-01-01 10:00 exists; 262142-12-31 23:00 plus two hours does not -/
+example : arith .add (.timestamp 738886 36000 0) (.interval 3600000000000) = .ok (.timestamp 738886 39600 0) ∧
+    arith .add (.timestamp (Civil.daysFromCE 262142 12 31) 82800 0) (.interval 7200000000000) = .error .undefinedOperation ∧
+    arith .sub (.timestamp (Civil.daysFromCE (-262143) 1 1) 0 0) (.interval 1) = .error .undefinedOperation := ⟨rfl, rfl, rfl⟩
+
 /-- **interval + timestamp** is the same -/
 theorem interval_plus_ts_instant (d s f ns : Int) (r : Value) (h : TsPlain s f)
     (h1 : arith .add (.interval ns) (.timestamp d s f) = .ok r) :
